@@ -93,7 +93,7 @@ Emit(objs) ==
       all == objs \o extra
       sorted == SelectSeq(all, LAMBDA o : IsRoot(o.p)) \o SelectSeq(all, LAMBDA o : IsGroup(o.p))
                 \o SelectSeq(all, LAMBDA o : IsChan(o.p))
-  IN [objs |-> [i \in DOMAIN sorted |-> [p |-> sorted[i].p, has |-> IsChan(sorted[i].p), n |-> sorted[i].len,
+  IN [objs |-> [i \in DOMAIN sorted |-> [p |-> sorted[i].p, has |-> IsChan(sorted[i].p), n |-> sorted[i].len, sv |-> 0,
                                          pu |-> IF sorted[i].prop = <<>> THEN <<>> ELSE <<sorted[i].prop>>]],
       k |-> IF \E i \in DOMAIN sorted : IsChan(sorted[i].p) /\ sorted[i].len > 0 THEN 1 ELSE 0,
       il |-> FALSE, be |-> FALSE,
@@ -160,7 +160,7 @@ TyOf == [c \in ChansW |-> CHOOSE t \in TdmsTypesOfArray(cls[c]) : TRUE]
 Seg == INSTANCE TdmsSegments WITH
          Paths <- PathsW, Chans <- ChansW, Groups <- GroupsW, GroupOf <- GroupOfW, ObjLists <- {},
          TypeSet <- AllTdmsTypes, Width <- [t \in AllTdmsTypes |-> 1], Unsized <- {},
-         MaxSegs <- 0, NVals <- {}, KVals <- {}, Inherit <- FALSE, Layouts <- {}, Orders <- {},
+         MaxSegs <- 0, NVals <- {}, KVals <- {}, SVals <- {0}, Inherit <- FALSE, Layouts <- {}, Orders <- {},
          PropNames <- {}, PropVals <- {}, MaxPropObjs <- 0, Forbidden <- {}, GenPrint <- FALSE,
          file <- <<>>, expl <- [i \in DOMAIN emitted |-> [objs |-> emitted[i].objs, k |-> emitted[i].k,
                                                           il |-> FALSE, be |-> FALSE]],
